@@ -153,9 +153,16 @@ def workload(tier: str, seed: int) -> tuple[list[dict], dict]:
         mode = rng.choice(["whole", "whole", "per-line", "per-line", "dir"])
         ndocs = 1 if mode == "whole" else rng.randint(1, 4)
         noise = rng.choice([0.0, 0.3, 0.3, 1.0])
-        docs = [refmap.jsonable(refmap.gen_doc(rng, mp, hostile, noise)) for _ in range(ndocs)]
+        big = i % 40 == 7
+        docs = [refmap.jsonable(refmap.gen_doc(rng, mp, hostile and not big,
+                                               0.0 if big else noise, big and d == ndocs // 2))
+                for d in range(ndocs)]
+        if big:
+            mode = "per-line" if i % 80 == 7 else mode
         spec = {f: refmap.field_spec_of(fl, mp["spine"], rng) for f, fl in mp["fields"].items()}
         tags = refmap.docs_tags(docs, mp) | {mode, "hostile" if hostile else "plain"}
+        if big:
+            tags.add("document-longer-than-64KiB")
         if refmap.kv_sibling_unfollowable(docs, mp):
             tags.add("kv-sibling-unfollowable")
         cases.append({"kind": "random", "name": f"m{i}", "mapping": mp, "docs": docs, "spec": spec,
@@ -175,7 +182,8 @@ def main(tier: str, seed: int) -> int:
              "concatenation of 1-3 parts and priority fall-backs, written in the documented "
              "YAML spellings; documents with 0-3 elements per level, missing keys, null and "
              "empty arrays, attribute arrays with missing members, numbers vs strings, invalid "
-             "timestamps, values with surrounding blanks and U+2028/U+2029/U+0085 inside (files "
+             "timestamps, every 40th case with a document of 150-400 spans (> 64 KiB per line), "
+             "values with surrounding blanks and U+2028/U+2029/U+0085 inside (files "
              "written with and without \\u escapes); 30% hostile (shape confusion, booleans, duplicate keys); modes "
              "whole-file / one-JSON-per-line / directory; plus the documentation's own examples "
              "verbatim. distinct = distinct case digest; trivial = reference yields no record")
